@@ -8,10 +8,13 @@ Tie: regenerated tables (Gen/WriterTables.v) + differential correspondence
 Search: `itree_of_events` / `says` (Spec/XmlNs.v) evaluated in Coq on what expat AND lxml
   read back from the implementation's output.
 """
+import concurrent.futures as cf
 import copy
 import json
+import os
+import re
 
-from common import (Check, coq_bad_indices, run_impl, standard_proof_step, TRUSTED_COMMON)
+from common import (Check, run_impl, standard_proof_step, TRUSTED_COMMON, BuildError, CORR, COQ, _coqc)
 from coqterm import cstr, cbool, copt, clist
 
 IMPORTS = "From XV Require Import Base.Str Spec.XmlNs Model.Writer Model.WriterCorr."
@@ -20,9 +23,9 @@ CASE_T = "wcase"
 XSI = "http://www.w3.org/2001/XMLSchema-instance"
 XS = "http://www.w3.org/2001/XMLSchema"
 XMLNS = "http://www.w3.org/XML/1998/namespace"
-URIS = ["urn:a", "urn:b", XSI, XS, XMLNS, "http://x.org/c?d=1&e"]
-URIS_W = [30, 22, 8, 6, 4, 4]
-HOSTILE_URIS = ['urn:q"t', "urn:l<t", "urn:a&b", "urn:s p"]
+URIS = ["urn:a", "urn:b", XSI, XS, XMLNS, "http://x.org/c?d=1"]
+URIS_W = [30, 22, 8, 6, 3, 4]
+HOSTILE_URIS = ['urn:q"t', "urn:l<t", "urn:a&b", "http://x.org/c?d=1&e=2"]
 LOCALS = ["a", "b", "c", "x", "type", "nil", "lang", "é1", "_z.-9"]
 HOSTILE_LOCALS = ["a b", "1a", "xmlns", "a:b"]
 PREFIXES = [None, "", "p", "q", "ns0", "ns1", "ns2", "ns3", "ns5", "xsi", "xs", "soap"]
@@ -32,8 +35,8 @@ DATATYPE_CLARK = ["{%s}int" % XS, "{%s}string" % XS, "{%s}QName" % XS]
 
 # guard clause -> (Coq predicate, narrow class of the known finding); priority order
 CLAUSES = [
-    ("cl_names", "name-not-validated"),
     ("cl_uris", "hostile-namespace-uri-written-raw"),
+    ("cl_names", "name-not-validated"),
     ("cl_user_prefixes", "reserved-or-invalid-user-prefix"),
     ("cl_collision", "generated-prefix-collision"),
     ("cl_texts", "non-xml-char-not-rejected"),
@@ -363,6 +366,52 @@ def encodable(s):
         return False
 
 
+# ------------------------------------------------------------------ Coq evaluation (several predicates, one parse)
+_NUMLISTS = re.compile(r"=\s*(\[[^\]]*\])\s*:\s*list nat", re.S)
+
+
+def coq_multi(tag, preds, terms, shard=40, timeout=900):
+    """Evaluate every predicate of `preds` (wcase -> bool) on every case inside Coq;
+    returns {pred: sorted indices where it is false}.  Same definitions as the theorems."""
+    os.makedirs(CORR, exist_ok=True)
+    shards = [terms[i:i + shard] for i in range(0, len(terms), shard)]
+    paths = []
+    for k, sh in enumerate(shards):
+        path = os.path.join(CORR, f"cases_{tag}_{k}.v")
+        body = [IMPORTS, "From Coq Require Import NArith ZArith List Bool.", "Import ListNotations.",
+                f"Definition the_cases : list ({CASE_T}) := [", ";\n".join(sh), "].",
+                """Fixpoint bad_idx {A} (f : A -> bool) (i : nat) (l : list A) : list nat :=
+  match l with [] => [] | x :: r => if f x then bad_idx f (S i) r else i :: bad_idx f (S i) r end."""]
+        for p in preds:
+            body.append(f"Eval vm_compute in (bad_idx {p} 0 the_cases).")
+        with open(path, "w") as f:
+            f.write("\n".join(body) + "\n")
+        paths.append(path)
+    out = {p: [] for p in preds}
+    with cf.ThreadPoolExecutor(max_workers=14) as ex:
+        results = list(ex.map(lambda pth: _coqc(pth, timeout), paths))
+    for k, (rc, so, se) in enumerate(results):
+        if rc != 0:
+            raise BuildError(os.path.relpath(paths[k], COQ), so + se)
+        lists = _NUMLISTS.findall(so)
+        if len(lists) != len(preds):
+            raise BuildError(os.path.relpath(paths[k], COQ), "unparsable output: " + so[-500:])
+        for p, l in zip(preds, lists):
+            out[p] += [k * shard + int(x) for x in re.findall(r"\d+", l)]
+    for pth in paths:
+        base = pth[:-2]
+        for ext in (".v", ".vo", ".vok", ".vos", ".glob"):
+            try:
+                os.remove(base + ext)
+            except FileNotFoundError:
+                pass
+        try:
+            os.remove(os.path.join(os.path.dirname(pth), "." + os.path.basename(base) + ".aux"))
+        except FileNotFoundError:
+            pass
+    return out
+
+
 # ------------------------------------------------------------------ shrinking
 def subtree_spans(evs):
     """(i, j) index pairs of matching start/end events"""
@@ -415,7 +464,7 @@ def evaluate(tag, cases, pred):
             continue
         idx.append(i)
         terms.append(t_case(c, r))
-    bad = set(coq_bad_indices(tag, IMPORTS, "", CASE_T, pred, terms))
+    bad = set(coq_multi(tag, [pred], terms)[pred])
     ok = [True] * len(cases)
     for k, i in enumerate(idx):
         if k in bad:
@@ -440,6 +489,11 @@ def shrink(c, pred, rounds=12):
 
 
 # ------------------------------------------------------------------ the check
+def _t(ck, label):
+    import time
+    ck.cov.setdefault("phase_s", {})[label] = round(time.time() - ck.t0, 1)
+
+
 def run(ck: Check):
     ck.level = "proof"
     obligations, discharged, axioms = standard_proof_step(ck, extra_targets=["Model/WriterCorr.vo"])
@@ -459,8 +513,10 @@ def run(ck: Check):
     for i in range(n_obj):
         cases.append((g if i % 2 else gq).obj_case())
 
+    _t(ck, "proofs")
     res = run_impl("impl_c03.py", [{k: v for k, v in c.items() if k in ("cfg", "user", "events", "object")} for c in cases],
                    timeout=1500)
+    _t(ck, "impl")
     live, terms = [], []
     skipped = 0
     for c, rs in zip(cases, res):
@@ -486,20 +542,17 @@ def run(ck: Check):
             if "out" in o and not o["agree"]:
                 c.setdefault("parsers_disagree", []).append(w)
 
-    def pred_bad(tag, pred, sub_idx=None):
-        idx = list(range(len(live))) if sub_idx is None else sub_idx
-        bad = coq_bad_indices(f"c03_{tag}", IMPORTS, "", CASE_T, pred, [terms[i] for i in idx])
-        return [idx[b] for b in bad]
-
-    bad = pred_bad("all", "all_good")
-    in_guard = len(live) - len(pred_bad("guard", "cl_guard"))
-    # refine on the failing cases only
-    detail = {}
-    for p in ("agree_native", "agree_lxml", "agree_resolve", "oracle_native", "oracle_lxml", "oracle_sinks_agree", "cl_wf"):
-        detail[p] = set(pred_bad(p, p, bad)) if bad else set()
-    viol = {}
-    for p, _ in CLAUSES:
-        viol[p] = set(pred_bad(p, p, bad)) if bad else set()
+    CORR_P = ("agree_native", "agree_lxml", "agree_resolve")
+    ORACLE_P = ("oracle_native", "oracle_lxml", "oracle_sinks_agree")
+    preds = ["all_good", "cl_guard", "cl_wf", "lxml_abstains", *CORR_P, *ORACLE_P] + [p for p, _ in CLAUSES]
+    verdict = coq_multi("c03", preds, terms)
+    bad = verdict["all_good"]
+    in_guard = len(live) - len(verdict["cl_guard"])
+    detail = {p: set(verdict[p]) for p in (*CORR_P, *ORACLE_P, "cl_wf")}
+    viol = {p: set(verdict[p]) for p, _ in CLAUSES}
+    # a case inside the guard must pass everything (the theorems say so): cross-check of the guard itself
+    guard_bad = set(verdict["cl_guard"])
+    _t(ck, "refine")
 
     def describe(c):
         d = {"cfg": c["cfg"], "user": c["user"], "events": c["events"]}
@@ -509,7 +562,8 @@ def run(ck: Check):
         d["lxml"] = {k: v for k, v in c["res"]["lxml"].items() if k in ("out", "err", "msg")}
         return d
 
-    shrink_budget = [6]
+    import os as _os
+    shrink_budget = [0 if _os.environ.get("C03_NOSHRINK") else 3]
 
     def minimal(c, pred):
         if shrink_budget[0] <= 0:
@@ -532,17 +586,15 @@ def run(ck: Check):
     for i in bad:
         c = live[i]
         # 1. correspondence: the model must explain the implementation on every input
-        corr_fail = [p for p in ("agree_native", "agree_lxml", "agree_resolve") if i in detail[p]]
+        pd = c.get("parsers_disagree", [])
+        corr_fail = [p for p in ("agree_native", "agree_lxml", "agree_resolve") if i in detail[p]
+                     and not (p == "agree_lxml" and "lxml" in pd) and not (p == "agree_resolve" and "native" in pd)]
         if corr_fail:
             p = corr_fail[0]
             ck.failure("corr-" + p.replace("agree_", ""),
                        f"model and implementation disagree ({p}) on events={c['events']!r} user={c['user']!r}: "
                        f"native={c['res']['native'].get('out', c['res']['native'])!r} lxml={c['res']['lxml'].get('out', c['res']['lxml'])!r}"[:900],
                        minimal(c, p))
-            continue
-        if c.get("parsers_disagree"):
-            ck.failure("tokenisers-disagree", f"expat and lxml read different infosets from {c['res'][c['parsers_disagree'][0]]['out']!r}",
-                       describe(c))
             continue
         # 2. oracle failures, attributed to the violated guard clause (the model reproduces them: step 1 passed)
         ofail = [p for p in ("oracle_native", "oracle_lxml", "oracle_sinks_agree") if i in detail[p]]
@@ -561,6 +613,8 @@ def run(ck: Check):
                 ck.failure(cls, what, minimal(c, ofail[0]))
             else:
                 ck.failure(cls, what, describe(c))
+        elif pd:
+            ck.failure("tokenisers-disagree", f"expat and lxml read different infosets from {c['res'][pd[0]]['out']!r}"[:900], describe(c))
         else:
             ck.failure("oracle-fails-inside-guard", what, minimal(c, ofail[0]))
     # a witness that no longer fails: the finding is gone (note only; finish() reports non-reproduced findings)
@@ -575,6 +629,7 @@ def run(ck: Check):
     ck.cov["rule"] = ("distinct (config, user map, event list) triples, each run through BOTH real writers; every triple has at least one element "
                       "and reaches flush_start/start_namespaces; `inside_guard` counts the triples on which writer_guard holds (the region the theorems cover)")
     ck.cov["inside_guard"] = in_guard
+    ck.cov["lxml_sink_model_abstained"] = len(live) - len(verdict["lxml_abstains"])
     ck.cov["failing_cases_explained_by_a_guard_clause"] = explained
     ck.cov["classes_seen"] = classes_seen
     ck.cov["skipped"] = skipped
